@@ -78,10 +78,12 @@ def enable_after_exit_scenario(rng, family, idx, mode):
     separate goroutines than the control channel has slots: each must come back by the end of its own context."""
     procs = {"r1": [{"op": "done"}]}
     for c in range(1, rng.randint(5, 6) + 1):
-        procs["c%d" % c] = [{"op": "enable"}, {"op": "view"}]
+        procs["c%d" % c] = [{"op": "enable"}, {"op": "enable"}, {"op": "view"}]
     return {"id": "%s-%s-x%d" % (family, mode[0], idx), "mode": mode, "seed": rng.randrange(1 << 30), "onnew": True, "onerr": True,
-            "cbcap": 4, "def": {"x": 1, "y": 2}, "skip": False, "delay": True, "suppress": rng.random() < 0.5, "oracle": True,
-            "maxsteps": 600, "pcancel": 0.0, "cancelok": [], "init": [{"x": 11, "y": 0, "u": False}], "procs": procs}
+            "cbcap": 4, "def": {"x": 1, "y": 2}, "skip": False, "delay": True, "suppress": rng.random() < 0.5, "oracle": mode != "free",
+            "maxsteps": 600, "pcancel": 0.0, "cancelok": [], "init": [{"x": 11, "y": 0, "u": False}], "procs": procs,
+            # the callers only move once reporter and monitor have nothing left to do: the monitor is gone by then
+            "starve": [p for p in procs if p.startswith("c")] if rng.random() < 0.8 else []}
 
 
 def gen_scenario(rng, family, idx, mode):
@@ -460,7 +462,9 @@ def run_check(pid, tier, replay=None):
         if pid in ("C08", "C06"):
             scenarios += [overflow_scenario(rng, pid, i, "random") for i in range(12 if quick else 200)]
         if pid == "C08":
-            scenarios += [enable_after_exit_scenario(rng, pid, i, "random") for i in range(10 if quick else 100)]
+            # (gated: the scheduler keeps a caller at the gate while the control channel is full; free-running: the callers beyond
+            # its capacity really wait on the channel, and must come back when their contexts end at teardown)
+            scenarios += [enable_after_exit_scenario(rng, pid, i, "random" if i % 2 else "free") for i in range(12 if quick else 100)]
         if pid in ("C04", "C06", "C08"):
             scenarios += [done_scenario(rng, pid, i, "random") for i in range(40 if quick else 400)]
         free = [gen_scenario(rng, pid, i, "free") for i in range(n_free)]
